@@ -88,7 +88,7 @@ def pre_steps(mod, mode, tier):
             cfg = mod.gen_config(rng, tier)
             guarded(lambda: core.execute(mod.RunClass, cfg, rng=rng, max_steps=min(cfg["steps"], 40)))
         if hasattr(mod, "warm_extra"):
-            mod.warm_extra()
+            guarded(mod.warm_extra)     # warm-up must never decide anything: all outcomes ignored
         if hasattr(mod, "drain_batch_stats"):
             mod.drain_batch_stats()
     if mode == "INTERP" and hasattr(sys, "monitoring") and not os.environ.get("VERIF_FILTER"):
